@@ -324,7 +324,15 @@ func (o *objectGoSlice) exportType() reflect.Type {
 
 func (o *objectGoSlice) equal(other objectImpl) bool {
 	if other, ok := other.(*objectGoSlice); ok {
-		return o.data == other.data
+		if o.data == other.data {
+			return true
+		}
+		// slices wrapped by value: each wrapper holds its own copy of the slice header,
+		// the wrapped values are the same when they are the same part of the same array
+		if !o.origIsPtr && !other.origIsPtr {
+			s1, s2 := *o.data, *other.data
+			return len(s1) > 0 && len(s1) == len(s2) && &s1[0] == &s2[0]
+		}
 	}
 	return false
 }
